@@ -157,6 +157,20 @@ func c04(args []string) int {
 					viol("gate-panic", fmt.Sprintf("logger %d global %d Panic() (reject-all sampler=%v): panicked=%v writes=%d level passed=%d; expected a panic and written=%v", lg, gl, pi == 1, panicked, w.n, w.last, want), nil)
 				}
 			}
+			// the level also arrives when the destination sits behind the package's own wrappers
+			for wi, wl := range []zerolog.Logger{zerolog.New(zerolog.SyncWriter(w)).Level(zerolog.Level(lg)), zerolog.New(zerolog.MultiLevelWriter(w)).Level(zerolog.Level(lg)),
+				zerolog.New(zerolog.SyncWriter(zerolog.MultiLevelWriter(w))).Level(zerolog.Level(lg))} {
+				for _, ev := range []int{-1, 0, 3, 5, 42, -7} {
+					named++
+					w.n, w.plain = 0, 0
+					wl.WithLevel(zerolog.Level(ev)).Msg("m")
+					want := should(ev, lg, gl)
+					if (w.n == 1) != want || w.plain != 0 || (want && w.last != zerolog.Level(ev)) {
+						viol("gate-wrapped-writer", fmt.Sprintf("logger %d global %d WithLevel(%d) through writer wrapping %d (0 SyncWriter, 1 MultiLevelWriter, 2 both): WriteLevel calls=%d plain Write calls=%d level passed=%d, expected written=%v", lg, gl, ev, wi, w.n, w.plain, w.last, want), nil)
+					}
+				}
+			}
+			w.plain = 0
 			// Logger.Write is an event without level
 			{
 				named++
